@@ -49,6 +49,9 @@ def _use_b(bf, b_seed, n_sol, gens, pop, words):
     random.seed(b_seed)
     sols = bf.fuzz(desired_solutions=n_sol, max_generations=gens, population_size=pop, random_seed=b_seed, mutation_rate=0.8)
     out = {"solutions": [str(s) for s in sols], "parses": []}
+    if words is None:
+        # round trip of its own outputs plus a near miss (equal in both children iff the solutions are)
+        words = out["solutions"][:2] + [s[:-1] for s in out["solutions"][:1] if len(s) > 1]
     for w in words:
         try:
             trees = []
@@ -201,29 +204,15 @@ def run(run: Run) -> None:
     for o in ops:
         run.op("history: %s" % (o,))
 
-    def reference():
-        boot.reset_process_globals()
-        bf = fresh_spec(b_text)
-        return _use_b(bf, b_seed, n_sol, gens, pop, [])
-
-    ref = _in_child(reference)
-    if ref[0] != "ok":
-        run.op("reference child failed: %s" % ref[1][:300])
-        run.event("ref-failed", ref[1][:200])
-        return
-    ref = ref[1]
-    # words to parse with B: its own solutions (round trip) plus a near miss
-    words = ref["solutions"][:2] + [s[:-1] for s in ref["solutions"][:1] if len(s) > 1]
-
     def reference2():
         boot.reset_process_globals()
         bf = fresh_spec(b_text)
-        return _use_b(bf, b_seed, n_sol, gens, pop, words)
+        return _use_b(bf, b_seed, n_sol, gens, pop, None)
 
     def test(restore=None):
         boot.reset_process_globals()
         bf, log, obs = _history(ops, a_texts, io_text, b_text, b_first, restore=restore)
-        out = _use_b(bf, b_seed, n_sol, gens, pop, words)
+        out = _use_b(bf, b_seed, n_sol, gens, pop, None)
         out["log"] = log
         out["obs"] = obs
         return out
